@@ -191,6 +191,9 @@ def check_point(ctx, cfg, hist, w, cov, found, only=None):
                            "%s]" % "+".join(ok), evs, twin)
                     for tag in tags:
                         report("%s:%s:unless(%s)" % (prefix, tag, a), msg, evs, twin)
+            elif fatal and twin == "clone":
+                # the clone cannot even be built: the searcher class and the raise site are the minimal pattern
+                report("clone:%s:%s" % (srname, clause), msg + " [searcher options: %s]" % var, evs, twin)
             else:
                 report(prefix + ":" + clause, msg, evs, twin)
                 for tag in tags:
@@ -280,7 +283,7 @@ def task(cfg):
         for key, what, rp in check_point(ctx, cfg, hist, w, cov, found):
             viols.append(Violation(PROP, key, what, rp))
         cov.extra["max_crash_depth"] = max(cov.extra.get("max_crash_depth", 0), len(hist))
-    cov.extra["suggestions_equal_only_up_to_1e-7"] = tw.NEAR[0]
+    cov.extra["suggestions_equal_only_up_to_1e-5"] = tw.NEAR[0]
     tw.NEAR[0] = 0
     cpu = time.process_time() - t0
     cov.extra["max_task_cpu_s"] = round(cpu, 1)
@@ -325,8 +328,8 @@ def run(tier, seed):
         "clone_from_state is called on the searcher of a freshly constructed scheduler (same constructor arguments), "
         "configured like the original; the clone replaces the searcher of a scheduler brought to the crash point by "
         "replay (dill for the real-BO family)",
-        "float hyperparameters of suggestions are compared with relative tolerance 1e-7 (GP get_params/set_params is exact "
-        "only up to an ulp; counted in suggestions_equal_only_up_to_1e-7), everything else exactly",
+        "float hyperparameters of suggestions are compared with relative tolerance 1e-5 (GP get_params/set_params is exact "
+        "only up to an ulp; counted in suggestions_equal_only_up_to_1e-5), everything else exactly",
         "debug_log=True variants of the C03-C05 worlds set searcher._debug_log = DebugLogPrinter() after construction",
     ]
     return res
